@@ -33,7 +33,7 @@ BOUNDS = {
              "native/slim values, both storage modes: symbolic reals; plus listed larger masks (1D lengths 17-40, 2D up to 5x6) and "
              "C / Fortran / transposed-view memory layouts of the mask; re-masking by a second mask: shifted/flipped copies of every mask, "
              "and every PAIR of masks of shapes with <= 5 pixels",
-    "thorough": "all masks of every shape with H*W <= 12 (kernels and classes); 1D masks of length <= 8; every pair of masks of shapes <= 8 pixels",
+    "thorough": "all masks of every shape with H*W <= 12 (kernels and classes); 1D masks of length <= 8; every pair of masks of shapes <= 7 pixels",
     "merged": "additionally the slim/native/index kernels with the mask bits left symbolic (merge interpreter, ONE path = all 2^(H*W) masks "
               "and all real values): shape 3x4 (quick) plus 4x4, 3x5 (thorough; 5x5 did not finish within 30 min)",
 }
@@ -446,7 +446,7 @@ def _cases(tier):
                 out.append(("case_kernels_2d", {"H": H, "W": W}, sp))
             if n <= cap_c:
                 out.append(("case_classes_2d", {"H": H, "W": W}, sp))
-    cap_r = 5 if tier == "quick" else 8
+    cap_r = 5 if tier == "quick" else 7
     for H in range(1, 8):
         for W in range(1, 8):
             if 2 <= H * W <= cap_r:
